@@ -326,7 +326,7 @@ func runC16(rc *RunCtx) {
 	})
 	m.CheckBalances("A", "start")
 	// weights:       fund swap melt resolve replay dup race checkstate restore restart clock adv internal rotate
-	weights := []int{1, 4, 4, 2, 1, 0, 1, 0, 0, 2, 0, 1, 1, 0}
+	weights := []int{1, 4, 4, 2, 1, 0, 1, 0, 0, 2, 0, 1, 1, 0, 1}
 	// a separate configuration injects storage errors into ordinary operations; from the first
 	// injected error on, the comparison is the relaxed one of checkBalancesFaulted and the limit
 	// predicates (which need the exact balance) are no longer judged
